@@ -145,6 +145,7 @@ class Rig:
         self.Wtp = Wtp
         self.dp = dp
         self.dir = d
+        self.pid = os.getpid()
         self.n = 0
         self.ctx = None
         self.calls: list = []
@@ -155,7 +156,7 @@ class Rig:
 
     # -- instrumentation: wrappers around the pipeline's steps (call, then snapshot)
     def _install(self):
-        dp, rig = self.dp, self
+        dp = self.dp
 
         def wrap_mod(name, label):
             real = getattr(dp, name, None)
@@ -167,7 +168,7 @@ class Rig:
                 if name == "overwrite_pages":
                     do = a[2] if len(a) > 2 else kw.get("do_overwrite")
                     lab = "write" if do else f"probe:{bool(res)}"
-                rig._note(lab)
+                _note_current(lab)
                 return res
             w._pl_wrapped = True
             setattr(dp, name, w)
@@ -178,7 +179,7 @@ class Rig:
                 return
             def w(self_, *a, **kw):
                 res = real(self_, *a, **kw)
-                rig._note(label)
+                _note_current(label)
                 return res
             w._pl_wrapped = True
             setattr(self.Wtp, name, w)
@@ -320,7 +321,7 @@ class Rig:
                                      skip_extract_dump=sc["skip"], analyze_template_func=func)
             else:
                 # skip_extract_dump = False with nothing to parse: the pieces called directly
-                self._note("parse")
+                self._note("parse")  # process_dump's part is played by the harness here
                 self.dp.add_default_templates(ctx)
                 self.dp.analyze_and_overwrite_pages(ctx, folders, False, func)
         except BaseException as e:  # noqa: BLE001  (sys.exit inside overwrite_pages included)
@@ -334,6 +335,11 @@ class Rig:
 
 _RIG = None
 _RIGDIR = None
+
+
+def _note_current(label):
+    if _RIG is not None and _RIG.pid == os.getpid():
+        _RIG._note(label)
 
 
 def rig() -> Rig:
@@ -645,17 +651,15 @@ def tokenize(s: str, site, chars=False):
         return atoms + ["SP" if c == " " else ("US" if c == "_" else c) for c in s]
     if s:
         atoms.append("SP" if s[0] == " " else ("US" if s[0] == "_" else s[0]))
-        cur = ""
-        for ch in s[1:]:
-            if ch in " _":
-                if cur:
-                    atoms.append(cur)
-                    cur = ""
-                atoms.append("SP" if ch == " " else "US")
-            else:
-                cur += ch
-        if cur:
-            atoms.append(cur)
+        s = s[1:]
+        # "/documentation" and "/testcases" are atoms of their own (Ingest.tla), blanks split words
+        for piece in re.split(r"(/documentation|/testcases| |_)", s):
+            if piece == " ":
+                atoms.append("SP")
+            elif piece == "_":
+                atoms.append("US")
+            elif piece:
+                atoms.append(piece)
     return atoms
 
 
@@ -671,6 +675,8 @@ class Abs:
         self.pre: set = set()
         self.atoms: set = set()
         self.chars = False
+        for b in ("|", "=", "&lbrace;&lbrace;", "&rbrace;&rbrace;"):
+            self.body(b)
 
     def body(self, text, inc=None, uses=(), pre=False):
         if text not in self.ids:
@@ -1145,7 +1151,7 @@ def extend(o: Outcome, tier: str, pid: str) -> None:
         vjobs = [("scn", sd + i, 40, only_skip, 1000 * i) for i in range(8)]
         vjobs += [("save", sd + 100 + i, 40, 100000 + 1000 * i) for i in range(3 if pid == "C12" else 0)]
     else:
-        vjobs = [("scn", sd + i, 12, only_skip, 1000 * i) for i in range(3)]
+        vjobs = [("scn", sd, 30, only_skip, 0)]
         vjobs += [("save", sd + 100, 15, 100000)] if pid == "C12" else []
     recs = pmap(record_chunk, vjobs, chunk=1)
 
@@ -1157,9 +1163,12 @@ def extend(o: Outcome, tier: str, pid: str) -> None:
                 "Gen2": dict(maxov=2, bases="BasesT", pj="PoolJ_T", pd="PoolD_T", dumps="DumpsT")}
     else:
         gens = {"Gen2": dict(maxov=2, bases="BasesQ", pj="PoolJ_Q", pd="PoolD_Q", dumps="DumpsQ")}
+    nparts = 4 if thorough else 2
+    if not thorough:
+        parts = [1] if pid == "C11" else [0, 1]   # 2 parts: part = classifier given or not
     for gname, kw in gens.items():
         for p in parts:
-            text = cfg("GSpec", "DevAsIs", parts=4, part=p, invs=INV_ASIS + ["GenInv"], **kw)
+            text = cfg("GSpec", "DevAsIs", parts=nparts, part=p, invs=INV_ASIS + ["GenInv"], **kw)
             jobs[f"{gname}[{p}]"] = (lambda text=text: tlc("Gen_Pipeline", "gen.cfg", cfg_text=text, workers=1, timeout=1500))
     mc = cfg("MCSpec", "DevIdeal", 2 if thorough else 1, "BasesT" if thorough else "BasesQ",
              "PoolJ_T" if thorough else "PoolJ_Q", "PoolD_T" if thorough else "PoolD_Q", "DumpsT" if thorough else "DumpsQ",
@@ -1170,11 +1179,12 @@ def extend(o: Outcome, tier: str, pid: str) -> None:
             continue
         jobs[d] = (lambda d=d: tlc("MC_Pipeline", d, workers=1, check=False, timeout=600))
     if pid == "C12":
-        sv = cfg("SGSpec", "DevAsIs", 0, "BasesQ", "PoolJ_Q", "PoolD_Q", "DumpsQ", titleu="TitlesAll", maxpages=2, wins="WinBoth", invs=["SGenInv"])
+        sv = cfg("SGSpec", "DevAsIs", 0, "BasesQ", "PoolJ_Q", "PoolD_Q", "DumpsQ", titleu="TitlesAll" if thorough else "TitlesQ", maxpages=2, wins="WinBoth", invs=["SGenInv"])
         jobs["GenSave"] = lambda: tlc("Gen_Pipeline", "gs.cfg", cfg_text=sv, workers=1, timeout=900)
         ms = cfg("SSpec", "DevIdeal", 0, "BasesQ", "PoolJ_Q", "PoolD_Q", "DumpsQ", titleu="TitlesGood", maxpages=3 if thorough else 2, wins="WinBoth",
                  invs=["P4_Injective", "P4_ComesBack", "P4_NothingHidden"])
-        jobs["MC_save"] = lambda: tlc("MC_Pipeline", "ms.cfg", cfg_text=ms, workers=4 if thorough else 2, timeout=900)
+        if thorough:
+            jobs["MC_save"] = lambda: tlc("MC_Pipeline", "ms.cfg", cfg_text=ms, workers=4, timeout=900)
     if 0 not in parts:
         tt = cfg("GSpec", "DevAsIs", 0, "BasesT" if thorough else "BasesQ", "PoolJ_Q", "PoolD_Q", "DumpsT" if thorough else "DumpsQ", parts=4, part=0, invs=["GenInv"])
         jobs["GenTables"] = lambda: tlc("Gen_Pipeline", "gen.cfg", cfg_text=tt, workers=1, timeout=600)
@@ -1244,6 +1254,8 @@ def extend(o: Outcome, tier: str, pid: str) -> None:
             for i in info:
                 if i in cnt:
                     cnt[i] += 1
+            if c["good"] and not (c["injective"] and c["comesback"]):
+                raise common.TLCError(f"P4 fails in the model on good titles: {c['pages']}")
             if drift:
                 report([], [], drift, {"pages": [row_conc(r)[:3] for r in c["pages"]], "win": c["win"]}, "G-save")
         stats["save_cases"] = len(scases)
